@@ -19,6 +19,8 @@ package main
 //            h(kb)+2 (h(k) = main-chain height after k submissions)  answer = verdict letters, or E<status>
 //   kind h : GET chain/header/byHeight?height=h(kb)&count=3         answer = ids of the returned headers '+'-joined
 //   kind H<height>c<count> : the same with explicit arguments (read storm on the final store)
+//   kind M<height>c<batch> : GET chain/merkleroot?batchSize=<batch>&lastEvaluatedKey=<root of the main-chain block at
+//            <height>> (no key for height 0)   answer = P<merkle id>:<height>+...k<merkle id of the page's last key or ->
 
 import (
 	"encoding/json"
@@ -30,12 +32,36 @@ import (
 	"sync"
 	"sync/atomic"
 	"time"
+
+	"github.com/bitcoin-sv/block-headers-service/internal/chaincfg/chainhash"
 )
 
 type c15Read struct {
 	kind   string
 	kb, ka int
 	ans    string
+}
+
+type c15Page struct {
+	Content []struct {
+		MerkleRoot  string `json:"merkleRoot"`
+		BlockHeight int64  `json:"blockHeight"`
+	} `json:"content"`
+	Page struct {
+		LastEvaluatedKey string `json:"lastEvaluatedKey"`
+	} `json:"page"`
+}
+
+// merkle id of a root as the API prints it ("?" for a root no submitted header carries)
+func c15MerkTok(m *Mat, root string) string {
+	h, err := chainhash.NewHashFromStr(root)
+	if err != nil || h == nil {
+		return "?"
+	}
+	if v, ok := m.MerkID[*h]; ok {
+		return strconv.Itoa(v)
+	}
+	return "?"
 }
 
 func c15FreeHistory(n int) *History {
@@ -227,6 +253,29 @@ func runC15Free(c *Ctx, runs, n int) error {
 						hgt := (g*17 + i*5) % (top + 1)
 						cnt := 1 + (g+i)%9
 						hdr := map[string]string{"Authorization": "Bearer " + toks[(g*7+i)%len(toks)]}
+						if i%2 == 1 {
+							// a page of the merkle-root listing (row buffers of one page must not be shared with another request's)
+							target := fmt.Sprintf("/api/v1/chain/merkleroot?batchSize=%d", cnt)
+							if hgt > 0 {
+								target += "&lastEvaluatedKey=" + merkleBytes(mainAt[hgt].Merkle).String()
+							}
+							code, body := s.Do("GET", target, "", hdr)
+							ans := fmt.Sprintf("E%d", code)
+							var pg c15Page
+							if code == 200 && json.Unmarshal([]byte(body), &pg) == nil {
+								parts := []string{}
+								for _, e := range pg.Content {
+									parts = append(parts, fmt.Sprintf("%s:%d", c15MerkTok(m, e.MerkleRoot), e.BlockHeight))
+								}
+								lk := "-"
+								if pg.Page.LastEvaluatedKey != "" {
+									lk = c15MerkTok(m, pg.Page.LastEvaluatedKey)
+								}
+								ans = "P" + strings.Join(parts, "+") + "k" + lk
+							}
+							storm[g] = append(storm[g], c15Read{fmt.Sprintf("M%dc%d", hgt, cnt), nsub, nsub, ans})
+							continue
+						}
 						code, body := s.Do("GET", fmt.Sprintf("/api/v1/chain/header/byHeight?height=%d&count=%d", hgt, cnt), "", hdr)
 						ans := fmt.Sprintf("E%d", code)
 						var hs []struct {
